@@ -315,6 +315,36 @@ class Run:
         if not bad:
             self.cov['discharged'] += 1
         res['hygiene'] = bad
+        if self.tier == 'thorough' and res['ok']:
+            # independent re-check of the compiled property file and everything it depends on
+            mod = 'Tally.' + files[-1][:-2].replace('/', '.')
+            with CoqLock():
+                p = subprocess.run(['timeout', '3000', 'coqchk', '-silent', '-o', '-Q', 'theories', 'Tally', mod],
+                                   cwd=COQ, capture_output=True, text=True)
+            out = p.stdout + p.stderr
+            m = re.search(r'\* Axioms:(.*?)\* Constants/Inductives relying on type-in-type:(.*?)\* Constants/Inductives relying on unsafe'
+                          r'.*?:(.*?)\* Inductives whose positivity is assumed:(.*)', out, re.S)
+            summary = {'rc': p.returncode}
+            if m:
+                summary.update({'axioms': ' '.join(m.group(1).split()), 'type_in_type': ' '.join(m.group(2).split()),
+                                'unsafe_fixpoints': ' '.join(m.group(3).split()), 'assumed_positivity': ' '.join(m.group(4).split())})
+            else:
+                summary['output_tail'] = out[-400:]
+            self.cov['coqchk'] = summary
+            self.cov['obligations'] += 1
+            clean = p.returncode == 0 and m and all(summary[k] == '<none>' for k in ('type_in_type', 'unsafe_fixpoints', 'assumed_positivity'))
+            if clean and summary['axioms'] != '<none>':
+                foreign = [a for a in summary['axioms'].split()
+                           if not a.startswith(('Coq.Numbers.Cyclic.Int63.PrimInt63.', 'Coq.Floats.PrimFloat.'))
+                           and a.split('.')[-1] not in STDLIB_AXIOMS]
+                summary['non_primitive_axioms'] = foreign
+                clean = not foreign
+            if clean:
+                self.cov['discharged'] += 1
+            else:
+                res['ok'] = False
+                res['log'] += '\n[check] coqchk did not validate the development: ' + json.dumps(summary)
+            self.cov['trusted_base'].append('coqchk -o ' + mod + ': ' + json.dumps(summary))
         return res
 
 
